@@ -27,6 +27,79 @@ pub enum Val {
     Slice(usize, usize),
     Nat(u64),
     Insp(u32, u64),
+    /// drop-tracked marker (C19); rendered without its identity
+    Tr(Tracker),
+}
+
+/// A value with an identity whose creation, cloning and destruction are recorded in a thread-local registry.
+#[derive(Debug)]
+pub struct Tracker(pub u64);
+
+#[derive(Default)]
+pub struct TrkState {
+    pub enabled: bool,
+    pub next_id: u64,
+    pub live: std::collections::HashSet<u64>,
+    pub created: u64,
+    pub cloned: u64,
+    pub dropped: u64,
+    pub double: bool,
+}
+
+thread_local! {
+    pub static TRK: std::cell::RefCell<TrkState> = std::cell::RefCell::new(TrkState::default());
+}
+
+pub fn trk_reset() {
+    TRK.with(|t| {
+        let mut t = t.borrow_mut();
+        let en = t.enabled;
+        *t = TrkState::default();
+        t.enabled = en;
+    })
+}
+
+fn trk_new(clone: bool) -> u64 {
+    TRK.with(|t| {
+        let mut t = t.borrow_mut();
+        t.next_id += 1;
+        let id = t.next_id;
+        t.live.insert(id);
+        if clone {
+            t.cloned += 1
+        } else {
+            t.created += 1
+        }
+        id
+    })
+}
+
+impl Tracker {
+    pub fn new() -> Self {
+        Tracker(trk_new(false))
+    }
+}
+impl Clone for Tracker {
+    fn clone(&self) -> Self {
+        Tracker(trk_new(true))
+    }
+}
+impl PartialEq for Tracker {
+    fn eq(&self, _: &Self) -> bool {
+        true
+    }
+}
+impl Drop for Tracker {
+    fn drop(&mut self) {
+        let _ = TRK.try_with(|t| {
+            if let Ok(mut t) = t.try_borrow_mut() {
+                t.dropped += 1;
+                if !t.live.remove(&self.0) {
+                    t.double = true;
+                }
+            }
+        });
+    }
 }
 
 impl Default for Val {
@@ -100,6 +173,7 @@ impl Val {
         use std::fmt::Write;
         match self {
             Val::Unit => out.push('u'),
+            Val::Tr(_) => out.push('T'),
             Val::Tok(t) => {
                 let _ = write!(out, "t{t}");
             }
